@@ -296,6 +296,11 @@ def root(t):
     return (t[0],)
 
 
+def _sequence(t):
+    """an argument list / keyword list of a call term (a tuple of terms without a tag of its own)"""
+    return isinstance(t, tuple) and (not t or isinstance(t[0], tuple))
+
+
 def rigid_difference(a, b):
     """two terms that are different computations whatever the conditionals merged inside them come out as: neither is itself a merged
     conditional / starred sequence / unknown, and they differ at the top (another operator, another callee, another number of operands, a
@@ -306,6 +311,12 @@ def rigid_difference(a, b):
         return rigid_difference(a, b[2]) and rigid_difference(a, b[3])
     if is_tag(a, *SOFT_TAGS) or is_tag(b, *SOFT_TAGS):
         return False
+    if _sequence(a) or _sequence(b):
+        # two argument lists (not terms with an operator of their own): a starred sequence among the arguments of one side stands for a number of
+        # arguments the evaluator does not know - `f(*X, y)` against `f(X[0], X[1], y)` is the same call whenever X has two elements
+        if any(is_tag(x, "star") for t in (a, b) if isinstance(t, tuple) for x in t):
+            return False
+        return not (_sequence(a) and _sequence(b)) or len(a) != len(b)
     ra, rb = root(a), root(b)
     if ra == rb:
         return False
